@@ -5,15 +5,22 @@ quantiser's range over R and in IEEE binary32 (Flocq); half-open/closed interval
 positions; targets sum / all-in-focus = image; defocus keeps in-focus pixels; single plane).
 
 Tie to /repo, re-checked on every run:
-  B2  the executable model (binary32 arithmetic of Flocq evaluated by vm_compute inside Coq) is run on
-      the same (image, depth map, number of planes / plane positions) as both loss classes and
-      slice_rgbd_targets; quantised depth, masks, targets and all-in-focus target are compared
-      EXACTLY (integers / booleans; image values are k/256 so that x*1 and x*0 are exact).
-      Depth maps contain 0, 1, k/(n-1), k/(n-1) +- 0.5/(n-1) +- ulp.
-  B1  set_targets (both classes), slice_rgbd_targets and add_defocus_blur (conv2d with the Gaussian
-      kernel as an uninterpreted operator) are cut from the current source, executed symbolically at
-      2x2x{1,3} and the emitted Coq definitions are proved equal to the model for all reals
-      (coq/tie/C16_Tie*.v), with the property restated on the traced definitions.
+  B1  set_targets, get_targets and add_defocus_blur of both classes (conv2d with the Gaussian kernel as an
+      uninterpreted operator; 1 channel x 2 and 3 planes, 3 channels x 2 planes, and a path with an empty
+      plane) and slice_rgbd_targets are cut from the current source, executed symbolically at 2x2x{1,3} with a
+      symbolic multiplier, and coq/tie/C16_Tie*.v prove for all reals, for WHATEVER quantiser expression the
+      code uses: the quantised depth is an integer in 0..n-1 on [0,1]; mask_i = (q == i); target, focus,
+      defocus targets and what get_targets returns equal the model; the property restated on the traced terms.
+  B2  the implementation is observed (both classes, naive and defocus with multipliers 1, 2, 1/2, 4; slicer);
+      the executable model is run inside Coq on the OBSERVED plane numbers and masks, targets (divided by the
+      multiplier), all-in-focus target and returned depth are compared EXACTLY (image values are k/256);
+      the observed plane numbers must be integers in 0..n-1 between the binary32 round-down and round-up of
+      fl32(depth*(n-1)) (Flocq), agreement with round-half-even is recorded as information only; the slicer's
+      masks are compared exactly with the binary32 interval model.  Depth maps contain 0, 1, k/(n-1),
+      k/(n-1) +- 0.5/(n-1) and their +-1, +-2 ulp neighbours.
+Meaning of `multiplier` (documented by the code: "multiplier to multiply with targets"): add_defocus_blur returns
+multiplier * (planes), so an in-focus pixel of target i is multiplier * image; the all-in-focus target is the
+image itself for every multiplier; scheme='naive' does not apply the multiplier (only observed with 1.0).
 Direct oracles state every clause of the property on the real implementation.
 """
 import ast, fractions, json, math, re
@@ -21,7 +28,8 @@ import numpy as np
 import torch
 from harness.common import zlit, listlit
 
-PROPS = ['C16_masks_partition', 'C16_masks_disjoint', 'C16_round_range', 'C16_round_range_float32',
+PROPS = ['C16_masks_partition', 'C16_masks_partition_real_valued', 'C16_integer_part_quantisers_in_range', 'C16_set_targets_any_quantiser',
+         'C16_depth_out_range', 'C16_exec_from_observed_plane_numbers', 'C16_masks_disjoint', 'C16_round_range', 'C16_round_range_float32',
          'C16_float32_quantiser_spec', 'C16_masks_sum_one', 'C16_targets_sum', 'C16_focus_is_image',
          'C16_set_targets_float32', 'C16_set_targets_real', 'C16_intervals_partition',
          'C16_intervals_partition_float32', 'C16_slice_targets_sum', 'C16_defocus_keeps_focus',
@@ -156,7 +164,11 @@ def oracle_multiplane(inp):
     if inp.get('prior'):
         # the caller has already built another loss object from the SAME image and depth tensors
         make_loss(inp['prior'], img, dep, n, 'naive', inp.get('blur_size', 5), inp.get('blur_ratio', 0.25)).get_targets()
-    L = make_loss(cls, img, dep, n, inp['scheme'], inp.get('blur_size', 5), inp.get('blur_ratio', 0.25))
+    mult = float(inp.get('multiplier', 1.0))
+    # `multiplier` scales the targets (add_defocus_blur: `targets * multiplier`); the all-in-focus target is the
+    # image itself.  scale = what an in-focus pixel of the returned targets is, relative to the image.
+    scale = mult if inp['scheme'] == 'defocus' else 1.0
+    L = make_loss(cls, img, dep, n, inp['scheme'], inp.get('blur_size', 5), inp.get('blur_ratio', 0.25), mult)
     targets, focus, dnorm = L.get_targets()
     masks = L.masks.detach().clone()
     out = []
@@ -176,13 +188,16 @@ def oracle_multiplane(inp):
     agree = all(bool(((q == i).reshape(H, W) == (masks[i, 0] == 1)).all()) for i in range(n))
     out.append(('mask_is_plane_index', agree, True, agree))
     infocus = (targets * masks).sum(0)
-    out.append(('in_focus_targets_sum_to_image', bool((infocus == img0).all()), 'sum_i targets_i*mask_i == image, channel by channel',
-                {'max_abs_err': float((infocus - img0).abs().max())}))
+    out.append(('in_focus_targets_sum_to_image', bool((infocus == img0 * scale).all()), 'sum_i targets_i*mask_i == multiplier*image, channel by channel',
+                {'max_abs_err': float((infocus - img0 * scale).abs().max()), 'multiplier': mult}))
+    div = 1 if n == 1 else n - 1
+    out.append(('returned_depth_is_plane_number_over_n_minus_1', bool(torch.equal(dnorm, L.target_depth.detach() / div)) and bool(((dnorm >= 0) & (dnorm <= 1)).all()),
+                'plane number / max(1, n-1), in [0, 1]', dnorm.reshape(-1).tolist()[:8]))
     out.append(('focus_target_is_image', bool((focus == img0).all()), 'all-in-focus target == image, channel by channel',
                 {'max_abs_err': float((focus - img0).abs().max()), 'focus[0][:4]': focus[0].reshape(-1).tolist()[:4], 'image[0][:4]': img0[0].reshape(-1).tolist()[:4]}))
-    per_plane = bool(((targets * masks) == img0.unsqueeze(0) * masks).all())
-    out.append(('in_focus_pixels_unchanged', per_plane, 'targets_i*mask_i == image*mask_i',
-                {'max_abs_err': float(((targets * masks) - img0.unsqueeze(0) * masks).abs().max())}))
+    per_plane = bool(((targets * masks) == img0.unsqueeze(0) * masks * scale).all())
+    out.append(('in_focus_pixels_unchanged', per_plane, 'targets_i*mask_i == multiplier*image*mask_i',
+                {'max_abs_err': float(((targets * masks) - img0.unsqueeze(0) * masks * scale).abs().max()), 'multiplier': mult}))
     if inp['scheme'] == 'naive':
         out.append(('targets_sum_to_image', bool((targets.sum(0) == img0).all()), 'sum_i targets_i == image',
                     {'max_abs_err': float((targets.sum(0) - img0).abs().max())}))
@@ -190,12 +205,12 @@ def oracle_multiplane(inp):
     else:
         Ln = make_loss(cls, img0.clone(), dep0.clone(), n, 'naive', inp.get('blur_size', 5), inp.get('blur_ratio', 0.25))
         tn, fn, _ = Ln.get_targets()
-        same = bool(((targets * masks) == tn).all()) and bool((Ln.masks == masks).all()) and bool((fn == focus).all())
+        same = bool(((targets * masks) == tn * scale).all()) and bool((Ln.masks == masks).all()) and bool((fn == focus).all())
         out.append(('defocus_keeps_in_focus_pixels', same, 'blurred targets restricted to their own plane == unblurred targets', same))
         out.append(('defocus_finite', bool(torch.isfinite(targets).all()), True, False))
     if n == 1:
-        out.append(('single_plane_reproduces_image', bool((targets[0] == img0).all()), 'targets[0] == image',
-                    {'max_abs_err': float((targets[0] - img0).abs().max())}))
+        out.append(('single_plane_reproduces_image', bool((targets[0] == img0 * scale).all()), 'targets[0] == multiplier*image',
+                    {'max_abs_err': float((targets[0] - img0 * scale).abs().max()), 'multiplier': mult}))
     out.append(('caller_tensors_unchanged', bool(torch.equal(img, img0)) and bool(torch.equal(dep, dep0)), 'image and depth as passed in',
                 {'image_changed': not bool(torch.equal(img, img0)), 'depth_changed': not bool(torch.equal(dep, dep0))}))
     return out
@@ -281,24 +296,34 @@ def gen_oracle_case(rng, kind, big=False):
     depth = [float(v) for v in gen_depth(rng, n, P, rng.choice(['boundary', 'mixed', 'mixed', 'random']))]
     case = {'cls': rng.choice(CLASSES), 'scheme': rng.choice(['naive', 'defocus']), 'n': n, 'C': C, 'H': H, 'W': W,
             'image': image, 'depth': depth, 'blur_size': rng.choice([3, 5, 10]), 'blur_ratio': rng.choice([0.25, 0.5, 1.0])}
+    if case['scheme'] == 'defocus':
+        # the property is silent about `multiplier` for scheme='naive' (the code does not apply it there), so it is varied
+        # only where the code documents it: the defocus targets are multiplier * (blurred planes)
+        case['multiplier'] = rng.choice([1.0, 1.0, 2.0, 0.5, 1.5, 0.75, 3.0])
     if rng.random() < 0.35:
         case['prior'] = rng.choice(CLASSES)          # a second loss object built from the same tensors
     return case
 
 
 # ---------------------------------------------------------------- B2: model executed inside Coq
-def observe_set_targets(cls, n, C, H, W, img_int, depth, scheme):
+def observe_set_targets(cls, n, C, H, W, img_int, depth, scheme, mult=1.0):
+    """what the implementation hands out through get_targets() / .masks / .target_depth.  With
+    scheme='defocus' the targets are scaled by `multiplier` (a power of two here, so dividing is exact)
+    and restricted to their own masks: theorem defocus_keeps_focus says this is the unblurred target."""
     img = (torch.tensor(img_int, dtype=torch.float32) / 256.0).reshape(C, H, W)
     dep = torch.tensor(np.array(depth, dtype=np.float32)).reshape(H, W)
-    L = make_loss(cls, img, dep, n, scheme)
-    targets, focus, _ = L.get_targets()
+    L = make_loss(cls, img, dep, n, scheme, multiplier=mult)
+    targets, focus, dout = L.get_targets()
     masks = L.masks.detach()
     if scheme == 'defocus':
-        targets = targets * masks                  # theorem defocus_keeps_focus: equals the unblurred targets
-    return {'quant': as_int_grid(L.target_depth.reshape(-1), 1),
+        targets = targets * masks / mult
+    q = L.target_depth.detach()
+    div = 1 if n == 1 else n - 1
+    return {'quant': as_int_grid(q.reshape(-1), 1),
             'masks': [[as_int_grid(masks[i, ch].reshape(-1), 1) for ch in range(C)] for i in range(n)],
             'targets': [[as_int_grid(targets[i, ch].reshape(-1)) for ch in range(C)] for i in range(n)],
-            'focus': [as_int_grid(focus[ch].reshape(-1)) for ch in range(C)]}
+            'focus': [as_int_grid(focus[ch].reshape(-1)) for ch in range(C)],
+            'depth_out_ok': bool(torch.equal(dout, q / div))}
 
 
 def observe_slice(C, H, W, img_int, depth, pos, pos_kind):
@@ -317,6 +342,10 @@ def zl(rows):
 
 
 def correspondence(ctx):
+    """B2.  The implementation is observed first; the model is then run inside Coq on the same image and on the
+    OBSERVED plane numbers (so the comparison of masks / targets / focus does not depend on which rounding the
+    code uses), and separately the observed plane numbers are compared with the binary32 neighbours of
+    fl32(depth * (n-1)) computed by Flocq."""
     rng = ctx.rng
     cases, terms = [], []
     nmax = 10 if ctx.thorough else 6
@@ -334,8 +363,17 @@ def correspondence(ctx):
                     H, W = 1, len(b); P = len(b); depth = list(b)       # the complete boundary set
                 img_int = gen_image_int(rng, C, P)
                 scheme = 'naive' if rep % 2 == 0 else 'defocus'
-                cases.append(('set', cls, n, C, H, W, img_int, [float(d) for d in depth], scheme))
-                terms.append('exec_set_targets %d %s %s' % (n, listlit([dy(d) for d in depth]), zl(img_int)))
+                mult = rng.choice([1.0, 2.0, 0.5, 4.0]) if scheme == 'defocus' else 1.0
+                depth = [float(d) for d in depth]
+                try:
+                    o = observe_set_targets(cls, n, C, H, W, img_int, depth, scheme, mult)
+                except Exception as e:
+                    o = {'exception': repr(e)[:300]}
+                qs = o.get('quant')
+                usable = qs is not None and all(isinstance(q, int) for q in qs)
+                cases.append(('set', cls, n, C, H, W, img_int, depth, (scheme, mult), o, usable))
+                terms.append('(exec_quant_bounds %d %s, exec_from_quant %d %s %s)' % (
+                    n, listlit([dy(d) for d in depth]), n, listlit([zlit(q) for q in qs]) if usable else '[]', zl(img_int)))
     for N in range(1, nmax + 1):
         for kind in ('linspace', 'dyadic', 'random', 'repeated'):
             for pk in ('list', 'tensor'):
@@ -346,44 +384,61 @@ def correspondence(ctx):
                 P = H * W
                 depth = list(b) if pk == 'list' else [b[rng.randrange(len(b))] if rng.random() < 0.6 else F32(rng.random()) for _ in range(P)]
                 img_int = gen_image_int(rng, C, P)
-                cases.append(('slice', None, N, C, H, W, img_int, [float(d) for d in depth], (pos, pk)))
+                depth = [float(d) for d in depth]
+                try:
+                    o = observe_slice(C, H, W, img_int, depth, pos, pk)
+                except Exception as e:
+                    o = {'exception': repr(e)[:300]}
+                cases.append(('slice', None, N, C, H, W, img_int, depth, (pos, pk), o, True))
                 terms.append('exec_slice %s %s %s' % (listlit([dy(p) for p in pos]), listlit([dy(d) for d in depth]), zl(img_int)))
     vals = ctx.coq_eval(PRE, terms, label='planes', chunk=max(4, len(terms) // 14 + 1))
-    mism = 0
+    mism = qbad = 0
+    qtotal = qexact = 0
     for v, c in zip(vals, cases):
-        kind, cls, n, C, H, W, img_int, depth, extra = c
+        kind, cls, n, C, H, W, img_int, depth, extra, o, usable = c
         if v is None:
             continue
         model = pylit(v)
-        try:
+        ok, what = False, o
+        if 'exception' not in o:
             if kind == 'set':
-                o = observe_set_targets(cls, n, C, H, W, img_int, depth, extra)
-                mq, mm, mt, mf = model
-                ok = (o['quant'] == list(mq) and
-                      all(o['masks'][i][ch] == [int(b) for b in mm[i]] for i in range(n) for ch in range(C)) and
-                      o['targets'] == [[list(x) for x in pl] for pl in mt] and o['focus'] == [list(x) for x in mf])
-                what = {'model_quant': list(mq), 'impl_quant': o['quant'], 'model_focus': mf, 'impl_focus': o['focus']}
+                bounds, (mm, mt, mf) = model
+                qs = o['quant']
+                if usable:
+                    ok = (all(o['masks'][i][ch] == [int(b) for b in mm[i]] for i in range(n) for ch in range(C)) and
+                          o['targets'] == [[list(x) for x in pl] for pl in mt] and o['focus'] == [list(x) for x in mf] and o['depth_out_ok'])
+                    near = [lo <= q <= hi and 0 <= q <= n - 1 for q, (lo, ne, hi) in zip(qs, bounds)]
+                    qtotal += len(qs); qexact += sum(1 for q, (lo, ne, hi) in zip(qs, bounds) if q == ne)
+                    if not all(near):
+                        qbad += 1
+                        if qbad <= 3:
+                            ctx.log('plane number is not an integer neighbour of fl32(depth*(n-1)): %s n=%d depth=%s observed=%s [down, nearest-even, up]=%s' % (
+                                cls, n, [float(d).hex() for d in depth][:8], qs[:8], [list(t) for t in bounds][:8]))
+                what = {'plane_numbers': qs, 'model_focus': mf, 'impl_focus': o['focus'], 'depth_out_ok': o['depth_out_ok'], 'scheme_multiplier': extra}
             else:
                 pos, pk = extra
-                o = observe_slice(C, H, W, img_int, depth, pos, pk)
                 mm, mt = model
                 ok = (all(o['masks'][i][ch] == [int(b) for b in mm[i]] for i in range(n) for ch in range(C)) and
                       o['targets'] == [[list(x) for x in pl] for pl in mt])
                 what = {'model_masks': mm, 'impl_masks': [m[0] for m in o['masks']], 'positions': pos}
-        except Exception as e:
-            ok, what = False, {'exception': repr(e)[:300]}
         ctx.traces += 1
-        nb = sum(1 for d in depth if any(float(d) == float(x) for x in (boundary_depths(n) if kind == 'set' else slice_boundary_depths(extra[0]))))
         ctx.case('b2/%s/%s/%s' % (kind, cls or extra[1], 'n=%d' % n), (kind, cls, n, C, H, W, str(depth), str(img_int), str(extra)), nontrivial=True)
         if not ok:
             mism += 1
             if mism <= 4:
                 ctx.log('model/implementation disagree: %s %s n=%d C=%d %dx%d depth=%s %s' % (kind, cls, n, C, H, W, [float(d).hex() for d in depth][:8], json.dumps(what, default=str)[:600]))
-        if len(ctx.samples) < 3 and kind == 'set' and n in (4, 6) and nb:
-            ctx.sample({'kind': kind, 'cls': cls, 'n': n, 'depth_hex': [float(d).hex() for d in depth][:10], 'model_plane_index': list(model[0])[:10], 'impl_plane_index': o['quant'][:10] if isinstance(o, dict) else None})
+        if len(ctx.samples) < 3 and kind == 'set' and n in (4, 6) and ok:
+            ctx.sample({'kind': kind, 'cls': cls, 'n': n, 'scheme_multiplier': extra, 'depth_hex': [float(d).hex() for d in depth][:10],
+                        'observed_plane_number': o['quant'][:10], 'binary32 [down, nearest-even, up]': [list(t) for t in model[0]][:10]})
         if len(ctx.samples) < 5 and kind == 'slice' and n == 3:
             ctx.sample({'kind': kind, 'positions': extra[0], 'depth_hex': [float(d).hex() for d in depth][:8], 'model_masks': [[int(b) for b in r][:8] for r in model[0]]})
-    ctx.obligation('correspondence:exec-model=implementation(%d cases, exact)' % len(cases), mism == 0 and all(v is not None for v in vals), '%d disagreements' % mism)
+    allv = all(v is not None for v in vals)
+    ctx.obligation('correspondence:masks/targets/focus/depth_out = model(observed plane numbers), slicer = binary32 interval model (%d cases, exact)' % len(cases), mism == 0 and allv, '%d disagreements' % mism)
+    ctx.obligation('correspondence:plane number is an integer in 0..n-1 adjacent to fl32(depth*(n-1)) (Flocq binary32)', qbad == 0 and allv, '%d cases' % qbad)
+    # informative only (the property holds for any rounding): how often the code agrees with round-half-even
+    ctx.extra['plane_numbers_equal_to_binary32_round_half_even'] = '%d of %d' % (qexact, qtotal)
+    if qexact != qtotal:
+        ctx.log('note: %d of %d plane numbers differ from round-half-even of fl32(depth*(n-1)) (allowed: any nearest/adjacent integer)' % (qtotal - qexact, qtotal))
 
 
 # ---------------------------------------------------------------- B1: translation validation
@@ -413,11 +468,12 @@ def run(ctx):
     ctx.trusted += ['harness/props/c16.py readers and comparators; torch elementwise ops (mul, round, where, comparisons, conv2d) are external and observed',
                     'Flocq BinarySingleNaN (Bmult, Bnearbyint, Bleb, Bltb) as the meaning of float32 arithmetic',
                     'conv2d with the normalised Gaussian is an operator in the model and an uninterpreted operator `blur k p` in the trace; its only contract (sigma 0 = delta kernel = identity) is checked numerically each run',
-                    'add_defocus_blur is traced along the path where every `sum(plane) > 0` guard holds (guards emitted and tied to the model); empty planes are covered by the model theorem, B2 and the oracles',
-                    'the tracer emits round-half-up (Rround) for torch.round; the difference to half-even (exact ties only) is irrelevant for the partition theorem (any quantiser) and is compared exactly by B2',
+                    'add_defocus_blur is traced along two guard paths (every `sum(plane) > 0` guard true; plane 1 of 3 empty), guards emitted and tied to the model; other guard patterns are covered by the model theorem, B2 and the oracles',
+                    'the tie is generic in the quantiser (any integer-part expression with range 0..n-1); which integer a tie x.5 goes to is not part of the property: B2 only requires an integer between round-down and round-up of fl32(depth*(n-1))',
                     'tracer/shim.py + tracer/recipes/c16.py (translator; validated each run by the numeric self-check)']
     ctx.assumptions += ['images are non-negative (the `sum(plane) > 0` guard of add_defocus_blur is harmless only then)',
                         'depth values are finite float32 in [0, 1]; number of planes <= 2^24',
+                        'multiplier: in-focus pixels of the defocus targets are multiplier * image, focus_target is the image; scheme naive is exercised with multiplier 1 only (the code ignores it there)',
                         'plane positions are sorted and span the depth range']
     ctx.gate()
     ctx.ensure_theories(['theories/C16/Props.vo'])
